@@ -76,7 +76,7 @@ VARIANTS = [
     ("light axioms, sequences abstracted", dict(axioms="light", seq="abstract"), "cvc5", 8),
     ("focus, ground-defs, sequences abstracted", dict(axioms="light", focus=True, defs="ground", fuel=3, seq="abstract"), "z3", 6),
     ("focus", dict(axioms="light", focus=True), "z3", 6),
-    ("ground-defs, products abstracted", dict(defs="ground", fuel=None, nl="abstract"), "z3", 12),
+    ("ground-defs, products abstracted", dict(defs="ground", fuel=None, nl="abstract"), "z3", 20),
     ("ground-defs, products abstracted", dict(defs="ground", fuel=None, nl="abstract"), "cvc5", 8),
     ("light axioms, ground-defs, sequences abstracted", dict(axioms="light", defs="ground", fuel=3, seq="abstract"), "z3", 6),
     ("full", dict(), "z3", 20),
@@ -90,7 +90,9 @@ VARIANTS = [
 
 
 LONG_VARIANTS = [
+    ("ground-defs, products abstracted", dict(defs="ground", fuel=None, nl="abstract"), "z3", 60),
     ("light axioms", dict(axioms="light"), "z3", 40),
+    ("light axioms, sequences abstracted", dict(axioms="light", seq="abstract"), "z3", 40),
     ("focus, sequences abstracted", dict(axioms="light", focus=True, seq="abstract"), "z3", 30),
     ("ground-defs, products abstracted", dict(defs="ground", fuel=None, nl="abstract"), "cvc5", 40),
     ("light axioms", dict(axioms="light"), "cvc5", 60),
@@ -173,7 +175,7 @@ def discharge(engine: Engine, reports, schedule=None, both=False, workers=16):
             open_obs = [o for o in open_obs if not o.ok and not (o.result is not None and o.result.status == "sat")]
             if os.environ.get("PYVC_TRACE"):
                 print(f"[stage] {sv}({label}) {to}s: {n_before} -> {len(open_obs)} open, {time.time() - t_stage:.1f}s wall", flush=True)
-        if 0 < len(open_obs) <= 6:
+        if 0 < len(open_obs) <= 12:
             # a few obligations left: long budgets (many open ones mean a changed function, not a hard proof)
             for label, kw, sv, to in LONG_VARIANTS:
                 if not open_obs:
